@@ -24,7 +24,7 @@ from harness import configs, findings, pool, tlcrun  # noqa: E402
 from harness.plans import REPLAY_PLANS  # noqa: E402
 
 OUT = tlcrun.OUT
-EVID = os.path.join(ROOT, "evidence")
+EVID = os.environ.get("VERIF_EVIDENCE_DIR") or os.path.join(ROOT, "evidence")     # (seed regression runs write elsewhere)
 
 
 class Machinery(Exception):
